@@ -59,7 +59,7 @@ def Inl.plain : Inl → Bytes
   | .emph _ cs => cs.plain
   | .strong _ cs => cs.plain
   | .strike cs => cs.plain
-  | .link _ _ _ cs => cs.plain
+  | .link _ _ _ _ cs => cs.plain
   | .image _ _ _ cs => cs.plain
   | .autolink s r => autolinkUrl s r
   | .hard _ => [0x20]
@@ -78,7 +78,7 @@ def Inl.html : Inl → Bytes
   | .emph _ cs => H.em_open ++ cs.html ++ H.em_close
   | .strong _ cs => H.strong_open ++ cs.html ++ H.strong_close
   | .strike cs => H.del_open ++ cs.html ++ H.del_close
-  | .link url title _ cs => H.a_href ++ refUrl url ++ refTitle title ++ H.q_gt ++ cs.html ++ H.a_close
+  | .link url title _ _ cs => H.a_href ++ refUrl url ++ refTitle title ++ H.q_gt ++ cs.html ++ H.a_close
   | .image url title _ cs => H.img_src ++ refUrl url ++ H.alt_attr ++ refEsc cs.plain ++ refTitle title ++ H.img_end
   | .autolink s r => H.a_href ++ refUrl (autolinkUrl s r) ++ H.q_gt ++ refEsc (autolinkUrl s r) ++ H.a_close
   | .hard _ => H.br
